@@ -634,8 +634,32 @@ void RunTls(const std::vector<Node>& prog) {
   }
 }
 
+// wall-clock watchdog: an execution takes milliseconds; if no new execution has started for a whole period, the
+// library is spinning inside one operation without reaching the scheduler (e.g. a timed wait that keeps
+// re-arming an expired deadline).  Report it like a crash, with the replay.
+volatile std::uint64_t gExecs = 0;
+std::uint64_t gExecsSeen = ~0ULL;
+char gHangBuf[8192];
+
+void OnAlarm(int) {
+  if (gExecs == gExecsSeen) {
+    int n = std::snprintf(gHangBuf, sizeof(gHangBuf), "CRASH signal=14 choices=");
+    for (std::size_t i = 0; i < vrt::g.taken.size() && n < static_cast<int>(sizeof(gHangBuf)) - 300; ++i) {
+      n += std::snprintf(gHangBuf + n, sizeof(gHangBuf) - n, "%d,", vrt::g.taken[i]);
+    }
+    n += std::snprintf(gHangBuf + n, sizeof(gHangBuf) - n,
+                       " scenario=%s (hang: one execution made no progress for 20 s of wall-clock time)\n",
+                       gScenario.c_str());
+    (void)!write(1, gHangBuf, static_cast<std::size_t>(n));
+    _exit(70);
+  }
+  gExecsSeen = gExecs;
+  alarm(20);
+}
+
 void RunNamed(const std::string& name) {
   gScenario = name;
+  gExecs = gExecs + 1;
   auto parts = Split(name, '/');
   const std::string& cls = parts[0];
   if (cls == "thread" && parts.size() == 2) {
@@ -676,6 +700,8 @@ int main(int argc, char** argv) {
   gOldResume = yaclib::verif::gHooks.resume;
   yaclib::verif::gHooks.choose = MyChoose;
   yaclib::verif::gHooks.resume = MyResume;
+  std::signal(SIGALRM, OnAlarm);
+  alarm(20);
   std::vector<std::string> names;
   std::string list = m.Param("list");
   if (!list.empty()) {
